@@ -28,9 +28,35 @@ impl<'fds, 'buf> UnmarshalContext<'fds, 'buf> {
         }
     }
 
+    /// Splits off a context for the next `length` bytes. The new context keeps the absolute offset
+    /// into the message, because alignment is relative to the start of the message, but can not
+    /// read past the end of the region.
     pub fn sub_context(&mut self, length: usize) -> UnmarshalResult<UnmarshalContext<'fds, 'buf>> {
-        let region = self.read_raw(length)?;
-        Ok(UnmarshalContext::new(self.fds, self.byteorder, region, 0))
+        let start = self.cursor.offset;
+        self.read_raw(length)?;
+        let region = &self.cursor.buf[..start + length];
+        Ok(UnmarshalContext::new(
+            self.fds,
+            self.byteorder,
+            region,
+            start,
+        ))
+    }
+
+    /// Validates the value with the signature `sig` that starts at the current position and splits off a
+    /// context that covers exactly this value.
+    pub fn sub_context_for_value(
+        &mut self,
+        sig: &crate::signature::Type,
+    ) -> UnmarshalResult<UnmarshalContext<'fds, 'buf>> {
+        let val_bytes = crate::wire::validate_raw::validate_marshalled(
+            self.byteorder,
+            self.cursor.offset,
+            self.cursor.buf,
+            sig,
+        )
+        .map_err(|e| e.1)?;
+        self.sub_context(val_bytes)
     }
 
     pub fn align_to(&mut self, alignment: usize) -> Result<usize, UnmarshalError> {
